@@ -23,7 +23,8 @@ namespace sim
         long long   tag;     // engine specific (iteration of birth, marker depth, ...)
         long long   delta;   // engine specific (capacity delta observed at allocation)
         std::uint64_t id;
-        bool        corrupted = false; // engine specific (C17)
+        char*       cor_pre  = nullptr; // lowest corrupted byte of the front fence (C17)
+        char*       cor_post = nullptr; // lowest corrupted byte of the back fence (C17)
     };
 
     inline unsigned char pat_byte(std::uint64_t key, std::size_t i)
